@@ -701,6 +701,23 @@ func Core() []*Program {
 		"c": {Cmds: []Cmd{call("d", "x"), sh(0)}},
 		"d": {Cmds: []Cmd{{K: "dsh"}, sh(3)}},
 	}))
+	// three loops in one task (the three spellings of a list), each followed by an ordinary command; a called task
+	// with its own deferred command and dependency inside a loop: the next iteration waits for all of it
+	add(mk("for-three-styles", 0, []string{"a", "b", "c"}, map[string]*Task{
+		"a": {Cmds: []Cmd{{K: "sh", For: []string{"x", "y", "one"}}, sh(0), {K: "call", CS: &CallSite{Task: "b", For: []string{"one", "two"}}}, sh(0),
+			{K: "sh", For: []string{"two", "one", "x", "y"}}, {K: "call", CS: &CallSite{Task: "b", For: []string{"x", "y", "two"}}}, sh(0)}},
+		"b": {Deps: []CallSite{depv("c", "$")}, Cmds: []Cmd{{K: "dsh"}, sh(0)}},
+		"c": {Cmds: []Cmd{sh(0)}},
+	}))
+	// several deferred entries of both kinds around a failing command: reverse order, exactly once, exit code
+	add(mk("defer-three-mixed", 0, []string{"a", "b"}, map[string]*Task{
+		"a": {Cmds: []Cmd{{K: "dsh"}, {K: "dcall", CS: &CallSite{Task: "b", V: "one"}}, {K: "dsh"}, sh(0), {K: "dsh"}, {K: "dcall", CS: &CallSite{Task: "b", V: "two"}}, sh(7), {K: "dsh"}, sh(0)}},
+		"b": {Cmds: []Cmd{{K: "dsh"}, {K: "dsh"}, sh(0)}},
+	}))
+	add(mk("defer-in-called-twice", 0, []string{"a", "b"}, map[string]*Task{
+		"a": {Cmds: []Cmd{call("b", "one"), call("b", "two"), {K: "dsh"}, sh(0)}},
+		"b": {Cmds: []Cmd{{K: "dsh"}, sh(0), {K: "dsh"}, sh(0)}},
+	}))
 	// two roots, sequential and parallel
 	for _, par := range []bool{false, true} {
 		p := mk(fmt.Sprintf("two-roots-par%v", par), 2, []string{"a", "b", "c"}, map[string]*Task{
